@@ -79,10 +79,30 @@ def harness_pkgs():
 
 
 def overlay_for(pkgs, dirs=None):
+    """overlay of the harness dirs for pkgs; a harness dir may hold a file ALSO naming further harness dirs
+    (cross-package shims, e.g. the gossip world machinery used by the server/gossip harness)"""
     repl = {}
+    hroot = os.path.join(VERIF, "harness")
+    todo = []
     for pkg in pkgs:
-        for name, src in harness_files(pkg, dirs):
-            repl[os.path.join(REPO, pkg, name)] = src
+        for name in sorted(os.listdir(hroot)):
+            pf = os.path.join(hroot, name, "PKG")
+            if os.path.isfile(pf) and open(pf).read().strip() == pkg and (dirs is None or name in dirs):
+                todo.append(name)
+    seen = set()
+    while todo:
+        name = todo.pop()
+        if name in seen:
+            continue
+        seen.add(name)
+        d = os.path.join(hroot, name)
+        pkg = open(os.path.join(d, "PKG")).read().strip()
+        for fn in sorted(os.listdir(d)):
+            if fn.endswith(".go"):
+                repl[os.path.join(REPO, pkg, "zz_verif_%s_%s" % (name, fn))] = os.path.join(d, fn)
+        also = os.path.join(d, "ALSO")
+        if os.path.isfile(also):
+            todo += [x.strip() for x in open(also).read().split() if x.strip()]
     return {"Replace": repl}
 
 
